@@ -39,6 +39,12 @@ func c02R6(p *Prog, r *Report) {
 			reads := fc.CallsTo(isFn(mp("ss2022"), "ShadowStreamConn", "read"))
 			// the first payload chunk of a response is opened by its own reader
 			reads = append(reads, fc.CallsTo(isFn(mp("ss2022"), "ShadowStreamClientConn", "readFirstPayloadChunk"))...)
+			// … or, written out in place, by the in-place AEAD open itself
+			for _, cs := range fc.AllCalls() {
+				if isDecryptCall(cs.Fn) && cs.Fn.Name() == "DecryptInPlace" {
+					reads = append(reads, cs)
+				}
+			}
 			guardedByRead := func(v int) *CallSite {
 				for i := range reads {
 					if reads[i].SuccessGuards(v) {
@@ -141,7 +147,7 @@ func c02R6(p *Prog, r *Report) {
 						}
 						if !okCut && len(rc.Call.Args) == 1 {
 							if wo := objOf(info, rhs); wo != nil {
-								if fsl, ok := ast.Unparen(rc.Call.Args[0]).(*ast.SliceExpr); ok && fsl.Low == nil && fsl.High != nil && objOf(info, fsl.X) == wo {
+								if fsl, ok := ast.Unparen(fc.Resolve(rc.Call.Args[0])).(*ast.SliceExpr); ok && fsl.Low == nil && fsl.High != nil && objOf(info, fsl.X) == wo {
 									rd := fc.ReachingDefs(fa.V, wo)
 									if len(rd) == 1 && rd[0] != fc.G.Entry && fc.G.ReachAfter(rc.V, nil, nil)[rd[0]] {
 										if a2, ok := fc.G.V[rd[0]].Node.(*ast.AssignStmt); ok && len(a2.Lhs) == 1 && len(a2.Rhs) == 1 && objOf(info, a2.Lhs[0]) == wo {
